@@ -24,6 +24,7 @@ PROPS['C11'] = dict(
     stages=[
         dict(name='cube', variant='asan', harness='c11_volume.cpp', quick=640, thorough=640, budget=300, opts=dict(reps=4)),
         dict(name='arp', variant='asan', harness='c11_volume.cpp', quick=3000, thorough=40000, budget=60),
+        dict(name='multidev', variant='asan', harness='c11_volume.cpp', quick=4000, thorough=60000, budget=60),
         dict(name='config', variant='asan', harness='c11_volume.cpp', quick=1280, thorough=1280, budget=300, opts=dict(reps=4)),
     ],
 )
